@@ -629,9 +629,9 @@ pub fn run(rep: &mut Report, tier: &str, seed: u64) -> Result<(), String> {
     let mut drv = Driver::start()?;
     let thorough = tier == "thorough";
     sweep_single(rep, &mut drv, &mut rng.fork())?;
-    random_subsets(rep, &mut drv, &mut rng.fork(), if thorough { 100_000 } else { 2_500 })?;
-    pattern_order(rep, &mut drv, &mut rng.fork(), if thorough { 20_000 } else { 600 })?;
-    doc_stream(rep, &mut rng.fork(), if thorough { 40_000 } else { 1_500 }, false)?;
-    doc_stream(rep, &mut rng.fork(), if thorough { 400 } else { 40 }, true)?;
+    random_subsets(rep, &mut drv, &mut rng.fork(), if thorough { 100_000 } else { 6_000 })?;
+    pattern_order(rep, &mut drv, &mut rng.fork(), if thorough { 20_000 } else { 1_000 })?;
+    doc_stream(rep, &mut rng.fork(), if thorough { 40_000 } else { 3_000 }, false)?;
+    doc_stream(rep, &mut rng.fork(), if thorough { 400 } else { 60 }, true)?;
     Ok(())
 }
